@@ -298,7 +298,7 @@ def random_set_seq(o, rng, n, length, u):
         if rng.random() < 0.03:
             a = ",".join(str(rng.randint(0, 5)) for _ in range(rng.randint(0, 3)))
             b = ",".join(str(rng.randint(0, 7)) for _ in range(rng.randint(0, 5)))
-            o.op(rng.choice([f"{reg} extend_ref [{a}] [{b}]", f"{reg} defaults"]))
+            o.op(rng.choice([f"{reg} extend_ref [{a}] [{b}]", f"{reg} defaults", f"{reg} extend_from {other}"]))
             continue
         if r < 0.30:
             o.op(f"{reg} {rng.choice(['insert', 'insert', 'replace'])} {o.k(c)}")
@@ -505,7 +505,7 @@ def gen_C04_phase1(o, rng, tier):
                   f"{reg} get_mut k:{c}#0 3", f"{reg} index q:{c}#0", f"{reg} index_mut k:{c}#0 2",
                   f"{reg} get_key_value q:{c}#0"]
         t += [f"{reg} clear", f"{reg} drop", f"{reg} retain 5 1", f"{reg} retain 0 0", f"{reg} retain 2 0",
-              f"{reg} clone m1", f"{reg} eq m1", f"m1 eq {reg}",
+              f"{reg} clone m1", f"{reg} eq m1", f"m1 eq {reg}", f"{reg} clone_from m1", f"m1 clone_from {reg}",
               f"{reg} drain 1 drop", f"{reg} drain 0 drop", f"{reg} into_iter pairs 1 drop",
               f"{reg} into_iter keys 0 drop", f"{reg} into_iter keys 2 drop", f"{reg} into_iter values 2 drop",
               f"{reg} into_iter values 1 forget", f"{reg} drain 1 forget", f"{reg} drain 3 drop"]
@@ -532,7 +532,8 @@ def gen_C04_phase1(o, rng, tier):
         # sets
         for lay in layouts(nn, u):
             for lay2 in ([[], list(reversed(lay)), lay[:1]]):
-                for op in (["s0 clone s1", "s0 sub s1 s1", "s0 sub s1 s0", "s0 eq s1", "s0 is_subset s1",
+                for op in (["s0 clone s1", "s0 clone_from s1", "s1 clone_from s0", "s0 extend_from s1", "s1 extend_from s0",
+                            "s0 sub s1 s1", "s0 sub s1 s0", "s0 eq s1", "s0 is_subset s1",
                             "s0 is_disjoint s1", "s0 alg union s1 nnnn", "s0 alg symmetric_difference s1 df",
                             "s0 alg intersection s1 cnn", "s0 retain 5", "s0 clear", "s0 drain 1 drop"] +
                            [f"s0 extend 1 [{{k{a}}},{{k{b}}}]" for a in u[:2] for b in u[:2]] +
@@ -688,6 +689,21 @@ def gen_C06(o, rng, tier):
                 o.op("s0 clone s1")
                 o.end()
     umap_product(o, 2, {'insert', 'lookup', 'entry', 'iter', 'fmt'})
+    # large containers and large request arrays: sorting, scanning and copying code that switches
+    # strategy with the size must still not allocate
+    wide_gdm(o, "gdm", "lawful", present=(200, 64, 0))
+    o.case(m0=300, m1=300, s0=300, s1=300, tag="wide")
+    for i in range(290):
+        o.op(f"m0 insert {o.k(i)} {o.v()}")
+        if i % 2 == 0:
+            o.op(f"s0 insert {o.k(i)}")
+        if i % 3 == 0:
+            o.op(f"s1 insert {o.k(i)}")
+    for op in ("m0 clone m1", "m0 eq m1", "m0 retain 21 1", "m0 iter iter 0 lhnnnx", "m0 fmt debug", "s0 sub s1 s1",
+               "s0 alg union s1 hnnnx", "s0 alg symmetric_difference s1 f", "s0 is_subset s1", "s0 clone s1",
+               "m0 drain 5 drop", "m1 into_iter keys 7 drop", "s0 clear"):
+        o.op(op, test=True)
+    o.end()
 
 
 def set_ops_basic(reg, u):
@@ -726,6 +742,8 @@ def gen_C07(o, rng, tier):
                     o.op(f"s0 contains q:{c}#0")
                 o.op("s0 len")
                 o.end()
+    for nn in range(0, 3 if tier == "quick" else 4):
+        extend_from_product(o, nn, caps=[(nn, nn), (nn + 1, nn), (nn, nn + 1)] if nn < 3 else None)
     wide_set_product(o, set_ops_basic, suffix=lambda o, u, lay: (
         [o.op(f"s0 contains q:{c}#0") for c in u], o.op("s0 len")))
     for _ in range(60 if tier == "quick" else 600):
@@ -930,6 +948,34 @@ def gen_C13(o, rng, tier, unchecked=False, eq="lawful"):
                             o.op(f"m0 get_mut q:{c}#0 0")
                         o.end()
     big_map_gdm(o, rng, name, eq)
+    # the zero-sized-value shape (`Map<Key, (), N>`) and an array of 200 requests
+    for nn in range(0, 3):
+        u = list(range(nn + 1))
+        for lay in layouts(nn, u):
+            for j in range(0, 4):
+                for tup in itertools.product(u, repeat=j):
+                    if unchecked and len(set(tup)) != len(tup):
+                        continue
+                    o.case(s0=nn, s1=nn, eq=eq, tag="z")
+                    for c in lay:
+                        o.op(f"u0 insert {o.k(c)} 0#0")
+                    ks = ",".join(f"q:{c}#0" for c in tup)
+                    o.op(f"u0 {name} 1 [{ks}]", test=True)
+                    o.op("s0 len")
+                    o.end()
+    wide_gdm(o, name, eq)
+
+
+def wide_gdm(o, name, eq, present=(180, 0, 1)):
+    """200 requests at once against a map of capacity 300 holding 180 / 0 / 1 of the requested keys."""
+    for np_ in present:
+        o.case(m0=300, m1=0, eq=eq, tag="wide")
+        for i in range(np_):
+            o.op(f"m0 insert {o.k(i)} {o.v()}")
+        ks = ",".join(f"q:{199 - c}#0" for c in range(200))
+        o.op(f"m0 {name} 1 [{ks}]", test=True)
+        o.op("m0 len")
+        o.end()
 
 
 def big_map_gdm(o, rng, name, eq):
@@ -979,6 +1025,25 @@ def gen_C14(o, rng, tier):
                         o.op("s1 eq s0", test=True)
                         o.op("s0 eq s0", test=True)
                     o.end()
+
+
+def extend_from_product(o, n, caps=None):
+    """`a.extend(b)` with `b` a set that is consumed, for every pair of layouts."""
+    u = list(range(n + 1))
+    for (c0, c1) in (caps or [(n, n)]):
+        for a in layouts(min(n, c0), u):
+            for b in layouts(min(n, c1), u):
+                o.case(s0=c0, s1=c1, tag="x")
+                build_set(o, "s0", a)
+                build_set(o, "s1", b)
+                o.op("s0 extend_from s1", test=True)
+                o.op("s0 len")
+                o.op("s1 len")
+                o.op("s0 iter " + "n" * (c0 + 1))
+                for c in u:
+                    o.op(f"s0 contains q:{c}#0")
+                o.op(f"s1 insert {o.k(0)}")
+                o.end()
 
 
 def clone_from_product(o, n):
@@ -1088,6 +1153,8 @@ def gen_C16(o, rng, tier):
             o.case(s0=cap, s1=cap, tag="e")
             o.op(f"s0 extend_ref {a} {b}", test=True)      # `Extend<&T>` on a set of plain numbers
             o.end()
+    for nn in range(0, 3):
+        extend_from_product(o, nn)
     # extending sets that already hold 4..9 elements (block-wise duplicate scans)
     def ext(reg, u):
         L = len(u) - 1
